@@ -785,8 +785,15 @@ def isDerived : FTy → Bool
   | .enum _ _ => true
   | _ => false
 
+/-- the type implements `Default` (no derived types, no borrowed leaves, not `ByteVec`). -/
+def hasDefault : FTy → Bool
+  | .int _ | .bool | .option _ | .vec _ => true
+  | .text .string => true
+  | .blob .vecU8 => true
+  | _ => false
+
 def fieldAttrOk (a : FAttr) (t : FTy) : Bool :=
-  if a.skip then a.tag.isNone && a.codec == .dflt && !isDerived t && !t.borrows   -- "`skip` does not allow other attributes"; `Default`
+  if a.skip then a.tag.isNone && a.codec == .dflt && hasDefault t   -- "`skip` does not allow other attributes"; `Default`
   else a.idx < U32 && tagOk a.tag && codecOk a.codec t && (a.isB || !t.borrows || implicitBorrow t)
 
 def liveIdxs : Fields → List Nat
